@@ -65,7 +65,7 @@ Lemma log_distinct_step : forall n lg a0 s1 s2 o, log_distinct lg -> log_distinc
 Proof.
   intros n lg a0 s1 s2 o D. unfold step_clauses. simpl snd.
   destruct o; try exact D; unfold op_clauses; cbv zeta.
-  - (* custody send *) destruct (dec _ _); exact D.
+  - (* custody send *) destruct (dec _ _); [exact D|]. simpl snd. destruct (flag _ _); exact D.
   - (* approve *)
     match goal with |- log_distinct (snd (_, if ?c then _ else _)) => destruct c eqn:Ec end; simpl snd; [|exact D].
     intros f' t' h' R. simpl in R. simpl l_appr. unfold count3. simpl.
@@ -119,7 +119,7 @@ Proof.
   - (* the entry was in the log right after this step *)
     unfold step_clauses in Hl. simpl snd in Hl.
     destruct o0; try (left; exact Hl); unfold op_clauses in Hl; cbv zeta in Hl.
-    + destruct (dec _ _); left; exact Hl.
+    + destruct (dec _ _); [left; exact Hl|]. simpl snd in Hl. destruct (flag _ _); left; exact Hl.
     + match type of Hl with In _ (l_appr (snd (_, if ?c then _ else _))) => destruct c eqn:Ec end; simpl snd in Hl; [|left; exact Hl].
       simpl l_appr in Hl. destruct Hl as [<-|Hl]; [|left; exact Hl].
       right. apply andb_prop in Ec. destruct Ec as [Ec Ev]. apply andb_prop in Ec. destruct Ec as [Ei _].
@@ -137,7 +137,7 @@ Proof.
       { clear. induction tr' as [|[[[id o0] code] [post|]] r IH]; intros n' lg' id' a' s' T; simpl; auto.
         destruct (code =? 0); [|apply IH; exact T]. apply IH.
         unfold step_clauses. simpl snd. destruct o0; try exact T; unfold op_clauses; cbv zeta.
-        - destruct (dec _ _); exact T.
+        - destruct (dec _ _); [exact T|]. simpl snd. destruct (flag _ _); exact T.
         - match goal with |- rotated (snd (_, if ?c then _ else _)) _ = true => destruct c end; exact T.
         - match goal with |- rotated (snd (_, if ?c then _ else _)) _ = true => destruct c end; exact T.
         - destruct (pending s' t (to_lower h)); simpl snd; [|exact T]. match goal with |- rotated (if ?c then _ else _) _ = true => destruct c end; exact T.
@@ -193,7 +193,7 @@ Proof. intros. unfold step_clauses. simpl fst. apply in_or_app. right. apply in_
 (* the log after an accepted approval / confirmation, spelled out *)
 Definition approve_log (lg : log) (s1 s2 : state) (f t : Z) (hraw : string) : log :=
   if is_custodian (getA s1 t) f && negb (in3 f t (to_lower hraw) (l_appr lg) || in3 f t (to_lower hraw) (l_decl lg)) && voted s1 s2
-  then mkLog ((f, t, to_lower hraw) :: l_appr lg) (l_decl lg) (l_conf lg) (l_rot lg) else lg.
+  then mkLog ((f, t, to_lower hraw) :: l_appr lg) (l_decl lg) (l_conf lg) (l_rot lg) (l_req lg) else lg.
 Lemma approve_log_eq : forall n lg a s1 s2 f t hraw, snd (op_clauses n lg a s1 s2 (OApprove f t hraw)) = approve_log lg s1 s2 f t hraw.
 Proof. reflexivity. Qed.
 
